@@ -400,6 +400,46 @@ func (w *World) genClause(segOK bool) *J {
 		}
 		vals.A = append(vals.A, v)
 	}
+	if op == "in" {
+		cv := w.ctxValueFor(effKind, attr, path)
+		prim := cv != nil && (cv.K == 's' || cv.K == 'd' || cv.K == 'b')
+		empty := prim && ((cv.K == 's' && cv.S == "") || (cv.K == 'd' && cv.N == 0) || (cv.K == 'b' && !cv.B))
+		if prim && r.P(map[bool]float64{false: 0.3, true: 0.7}[empty]) {
+			if empty || r.P(0.5) {
+				// the same payload in the other JSON types ("in" is type-and-value equality; a precomputed set must keep the type)
+				var twins []*J
+				switch cv.K {
+				case 'b':
+					n, s := 0.0, ""
+					if cv.B {
+						n, s = 1, "true"
+					}
+					twins = []*J{JNum(n), JStr(s)}
+				case 'd':
+					twins = []*J{JStr(numText(cv.N)), JBool(cv.N != 0)}
+					if cv.N == 0 {
+						twins[0] = JStr("")
+					}
+				default:
+					twins = []*J{JBool(cv.S != ""), JNum(float64(len(cv.S)))}
+					if f, err := strconv.ParseFloat(cv.S, 64); err == nil {
+						twins[1] = JNum(f)
+					}
+				}
+				vals = &J{K: 'a', A: twins}
+				if r.P(0.3) {
+					vals.A = append(vals.A, w.scalarOfType(r.Intn(3)))
+				}
+			} else {
+				// a value no attribute can equal (null / array / object) in front of the one that matches
+				junk := []*J{JNull(), JArr(), JObj(), JArr(JStr("x"))}[r.Intn(4)]
+				vals = &J{K: 'a', A: []*J{w.scalarOfType(r.Intn(3)), junk, cv}}
+				if r.P(0.3) {
+					vals.A = vals.A[1:]
+				}
+			}
+		}
+	}
 	if kind != "" {
 		c.Set("contextKind", JStr(kind))
 	}
